@@ -7,7 +7,9 @@ EXTENDS HintInstance
 \*  13 tinos @7 (prep switches hinting off)   14/15/16 synthetic S4 @10/@16/@40 (prep: cut-in 0 below 11 ppem, glyph programs off above 30)
 \*  17 synthetic S5 degenerate contours (no programs: auto-hinter fallback)   18 avar2 checker / 19 vazirmatn / 20 colrv0v1-variable
 \*  at the default location through the interpreter
-MCConfigs == 1..20
-MCKindOf == [c \in 1..20 |-> CASE c \in {9, 10} -> "cff" [] c \in {11, 17} -> "auto" [] OTHER -> "glyf"]
-MCFails == [c \in 1..20 |-> IF c = 12 THEN "prep" ELSE "no"]
+\*  21 NotoSerifTC auto-hinted @16 (a second auto-hinter font, other script)
+\*  22..25 the auto-hinter requested explicitly on four fonts (Hebrew, Traditional Chinese, autohint_cmap, Latin shaping) @19
+MCConfigs == 1..25
+MCKindOf == [c \in 1..25 |-> CASE c \in {9, 10} -> "cff" [] c \in {11, 17, 21, 22, 23, 24, 25} -> "auto" [] OTHER -> "glyf"]
+MCFails == [c \in 1..25 |-> IF c = 12 THEN "prep" ELSE "no"]
 ====
